@@ -372,6 +372,12 @@ func (w *World) build(i int, in Inst) *Built {
 			})
 		}
 		b.Pol = rb.Build()
+		if in.Reuse {
+			rb.OnRetry(att("LATER.OnRetry")).OnRetriesExceeded(att("LATER.OnRetriesExceeded")).OnAbort(att("LATER.OnAbort")).
+				OnRetryScheduled(func(e failsafe.ExecutionScheduledEvent[int]) {
+					rec.add(rec.Attempt(i, "LATER.OnRetryScheduled", e.ExecutionAttempt))
+				}).Build()
+		}
 	case "breaker":
 		c := in.CB
 		cb := circuitbreaker.Builder[int]()
@@ -473,6 +479,11 @@ func (w *World) build(i int, in Inst) *Built {
 			})
 		}
 		b.Pol = fb.Build()
+		if in.Reuse {
+			fb.OnFallbackExecuted(func(e failsafe.ExecutionDoneEvent[int]) {
+				rec.add(rec.Info(i, "LATER.OnFallbackExecuted", e.ExecutionInfo))
+			}).Build()
+		}
 	case "cache":
 		cb := cachepolicy.Builder[int](w.Cache).WithKey(in.Key)
 		for _, c := range in.Conds {
@@ -514,6 +525,11 @@ func (w *World) build(i int, in Inst) *Built {
 			})
 		}
 		b.Pol = tb.Build()
+		if in.Reuse {
+			tb.OnTimeoutExceeded(func(e failsafe.ExecutionDoneEvent[int]) {
+				rec.add(rec.Info(i, "LATER.OnTimeoutExceeded", e.ExecutionInfo))
+			}).Build()
+		}
 	case "hedge":
 		hb := hedgepolicy.BuilderWithDelay[int](time.Hour).WithMaxHedges(in.MaxHedges)
 		for _, c := range in.Abort {
@@ -536,6 +552,9 @@ func (w *World) build(i int, in Inst) *Built {
 			hb.OnHedge(att("OnHedge"))
 		}
 		b.Pol = hb.Build()
+		if in.Reuse {
+			hb.OnHedge(att("LATER.OnHedge")).Build()
+		}
 	case "limiter":
 		var rb ratelimiter.RateLimiterBuilder[int]
 		if in.Smooth {
